@@ -219,7 +219,9 @@ class _LinModel:
 
     def __call__(self, params, ns, pts):
         import dadi
-        return dadi.Spectrum(self.A0 + np.asarray(params, float) @ self.A)
+        # a mild dependence on the grid setting, as every real model has: (1 + 1/pts) with pts the first (or only) grid size
+        g = float(np.atleast_1d(pts)[0]) if pts is not None else 10.0
+        return dadi.Spectrum((self.A0 + np.asarray(params, float) @ self.A) * (1.0 + 1.0 / g))
 
 
 # ------------------------------------------------------------------------------------------------ the catalogue
@@ -478,7 +480,7 @@ class GodambeOp:
         return dict(k=k, n=draw(st.sampled_from([5, 6])), mseed=draw(st.integers(0, 1)), p=[draw(st.sampled_from([0.8, 1.7, 3.0])) for _ in range(k)],
                     dseed=draw(st.integers(0, 3)), which=draw(st.sampled_from(['FIM', 'GIM', 'LRT'])), multinom=draw(st.booleans()), log=draw(st.booleans()),
                     container=draw(st.sampled_from(['list', 'array', 'tuple'])), adjust=draw(st.booleans()),
-                    shared=draw(st.sampled_from([True, True, True, False])))
+                    shared=draw(st.sampled_from([True, True, True, False])), pts=draw(st.sampled_from([10, 10, 25])))
 
     @staticmethod
     def build(a, layout):
@@ -504,10 +506,10 @@ class GodambeOp:
         # bootstrap-specific theta adjustments (only meaningful without the multinomial rescaling)
         adj = dict(boot_theta_adjusts=[0.8, 1.0, 1.3, 0.9, 1.1]) if (a.get('adjust') and not a['multinom']) else {}
         if a['which'] == 'FIM':
-            return np.asarray(Godambe.FIM_uncert(model, [10], p0, i['data'], log=a['log'], multinom=a['multinom'], eps=0.01), float)
+            return np.asarray(Godambe.FIM_uncert(model, [a.get('pts', 10)], p0, i['data'], log=a['log'], multinom=a['multinom'], eps=0.01), float)
         if a['which'] == 'GIM':
-            return np.asarray(Godambe.GIM_uncert(model, [10], i['boots'], p0, i['data'], log=a['log'], multinom=a['multinom'], eps=0.01, **adj), float)
-        return float(Godambe.LRT_adjust(model, [10], i['boots'], p0, i['data'], [0], multinom=a['multinom'], eps=0.01, **adj))
+            return np.asarray(Godambe.GIM_uncert(model, [a.get('pts', 10)], i['boots'], p0, i['data'], log=a['log'], multinom=a['multinom'], eps=0.01, **adj), float)
+        return float(Godambe.LRT_adjust(model, [a.get('pts', 10)], i['boots'], p0, i['data'], [0], multinom=a['multinom'], eps=0.01, **adj))
 
 
 @op('demes')
